@@ -48,6 +48,9 @@ class ElectronicControlUnit:
 
         # List of timer events the job thread should care of
         self._timer_events = []
+        # serialises the address claim state machines of the CAs of this ECU between the job thread
+        # (claim timer) and the thread that feeds received frames in
+        self._address_claim_lock = threading.RLock()
 
         self._job_thread_end = threading.Event()
         logger.info("Starting ECU async thread")
